@@ -193,6 +193,14 @@ func (r *Runner) unTest(ctx context.Context, op syntax.UnTestOperator, x string)
 		}
 		if f, ok := f.(interface{ Fd() uintptr }); ok {
 			// Support [os.File.Fd] methods such as the one on [*os.File].
+			// Like stdinTerminal, only call Fd on character devices,
+			// as it stops SetReadDeadline from working on e.g. pipes,
+			// which Runner.readLine needs to cancel blocking reads.
+			if st, ok := f.(interface{ Stat() (os.FileInfo, error) }); ok {
+				if fi, err := st.Stat(); err != nil || fi.Mode()&os.ModeCharDevice == 0 {
+					return false
+				}
+			}
 			return term.IsTerminal(int(f.Fd()))
 		}
 		// TODO: allow term.IsTerminal here too if running in the
